@@ -45,6 +45,7 @@ ACTIONS = ["ALock", "AArtifacts", "ALogOpen", "APreHook", "ADbOpen", "ASetup", "
            "ADbClose", "AMetaWrite", "ALogClose", "APostHook", "AUnlock", "AExit"]
 OBS_KEYS = ("exit", "escaped", "meta", "log", "lockFree", "db", "pre", "post", "phases", "reported")
 CLI_BASE = 100000
+EXIT_GRACE_S = 30
 NPAR = max(2, min(12, (os.cpu_count() or 4) - 4))
 
 
@@ -184,10 +185,25 @@ def run_cli_case(bench: Bench, case: dict[str, Any]) -> dict[str, Any]:
                         raise Machinery(f"cli case {case['id']} never reached its SIGINT point "
                                         f"(rc={p.poll()}): {errp.read_text()[-1500:]}")
                     os.kill(p.pid, signal.SIGINT)
-                rc = p.wait(timeout=180)
-            except subprocess.TimeoutExpired as e:
-                p.kill()
-                raise Machinery(f"cli case {case['id']} timed out: {case['c']}") from e
+                # the observation is written when entry_point() has ended; after that the interpreter
+                # only has to exit.  A process that does not (a left-open log handler can deadlock
+                # logging.shutdown()) is killed and reported, not waited for.
+                t0 = time.monotonic()
+                seen = None
+                hung = False
+                while p.poll() is None:
+                    now = time.monotonic()
+                    if seen is None and outp.exists():
+                        seen = now
+                    if seen is not None and now - seen > EXIT_GRACE_S:
+                        hung = True
+                        p.kill()
+                        break
+                    if now - t0 > 300:
+                        p.kill()
+                        raise Machinery(f"cli case {case['id']} timed out: {case['c']}")
+                    time.sleep(0.05)
+                rc = p.wait(timeout=30)
             finally:
                 if p.poll() is None:
                     p.kill()
@@ -199,8 +215,10 @@ def run_cli_case(bench: Bench, case: dict[str, Any]) -> dict[str, Any]:
     o = json.loads(outp.read_text())[0]["o"]
     o["_raw"]["exit_child"] = o["exit"]
     o["_raw"]["returncode"] = rc
-    # the status a shell reports: death by signal s is 128+s
-    o["exit"] = rc if rc >= 0 else 128 - rc
+    o["_raw"]["hung_at_exit"] = hung
+    if not hung:
+        # the status a shell reports: death by signal s is 128+s
+        o["exit"] = rc if rc >= 0 else 128 - rc
     return {"id": case["id"], "o": o}
 
 
@@ -311,6 +329,9 @@ def process(rep: Report, traces: list[dict[str, Any]], verdicts: dict[int, dict[
             rep.drift.append({"mode": mode, "case": c, "observed": obs, "design": t.get("expect"),
                               "reproduced_by_deviations": v["explain"]})
         raw = t["o"].get("_raw", {})
+        if raw.get("hung_at_exit"):
+            rep.drift.append({"mode": mode, "case": c, "note": "the process did not exit after entry_point() had "
+                              "ended (killed by the harness); status taken from entry_point()'s outcome"})
         if mode == "cli" and raw.get("exit_child") != t["o"]["exit"]:
             rep.drift.append({"mode": mode, "case": c, "note": "real process status differs from the status derived "
                               "from entry_point()'s outcome", "child": raw.get("exit_child"), "real": t["o"]["exit"]})
@@ -396,15 +417,23 @@ def run(tier: str, seed: int) -> Report:
         rep.extra["execution_wall_s"] = round(time.time() - t0, 1)
         traces = [{"id": cs["id"], "c": cs["c"], "o": obs[cs["id"]], "expect": cs["expect"]} for cs in inproc + cli]
         base = pick_base(traces)
+        # corrupt the recorded trace of the plain run and, in case the code under test breaks even that
+        # one, also the trace TLC itself expects for it (accepted by construction)
+        ideal = {"id": SELF_BASE - 1, "c": base["c"], "o": base["expect"]}
         muts = corruptions(base)
-        extra = [m for m, _ in muts] + [{"id": MUTANT_ID, "c": MUTANT_CASE, "o": obs[MUTANT_ID]}]
+        muts_ideal = corruptions(ideal)
+        for k, (m, _) in enumerate(muts_ideal):
+            m["id"] = SELF_BASE + 100 + k
+        extra = ([m for m, _ in muts] + [m for m, _ in muts_ideal] + [ideal]
+                 + [{"id": MUTANT_ID, "c": MUTANT_CASE, "o": obs[MUTANT_ID]}])
         verdicts, results = validate(traces + extra)
         for r in results:
             rep.add_tlc(r, "Trace_RunLifecycle batch")
         # ---- binding self-test
+        if verdicts[ideal["id"]]["verdict"] != "ok" or verdicts[ideal["id"]]["explain"] != []:
+            raise Machinery(f"the trace expected by the design layer is not accepted: {verdicts[ideal['id']]}")
         if verdicts[base["id"]]["verdict"] != "ok":
-            raise Machinery(f"the plain all-resources-on run is not accepted ({verdicts[base['id']]}): "
-                            "cannot run the binding self-test")
+            muts = muts_ideal
         got = [verdicts[m["id"]]["verdict"] for m, _ in muts]
         want = [w for _, w in muts]
         if got != want:
